@@ -338,6 +338,9 @@ class Imx93ArchitectureFeatures(architecture_features.ArchitectureFeatures):
         # Default Ethos-U65 system configuration
         # Ethos-U65 High-End: SRAM (16 GB/s) and DRAM (3.75 GB/s)
         from .tensor import BandwidthDirection
+        if not self.is_ethos_u65_system:
+            # the i.MX93 values below describe an Ethos-U65 system; an Ethos-U55 keeps its documented default
+            return super()._set_default_sys_config()
         self.core_clock = 1e9
         self.axi0_port = MemArea.Sram
         self.axi1_port = MemArea.Dram
